@@ -3,7 +3,10 @@
    _time_rotation, _size_rotation, _rotate_files, restart = destroy + construct over the same
    directory.  libc (localtime/gmtime + strftime for the date suffixes, localtime + mktime/timegm for
    the first rotation point) is an ORACLE: Section variables here, table-backed in the extracted
-   runner (the case line carries what the real libc returned).  Definitions only. *)
+   runner (the case line carries what the real libc returned).  Definitions only.
+   Code variants: three flags of the configuration select an earlier, defective behaviour of the code
+   (c_prefix: D7; c_cntacct: D10; c_plus24: C15-daily-dst); all false = the repaired code.  Which
+   variant stands for the source tree is read from it on every run (T-src, TieC14.v / TieC15.v). *)
 From Coq Require Import List NArith Bool.
 From Quill Require Import Rotate.RotFS.
 Import ListNotations.
@@ -14,6 +17,12 @@ Inductive freq := FDisabled | FDaily | FHourly | FMinutely.
 
 Record cfg := {
   c_prefix : bool;     (* true = behaviour before the D7 fix: next point = record timestamp + period *)
+  c_cntacct : bool;    (* true = behaviour before the D10 fix: the size check and _file_size use
+                          log_statement.size() (cnt); false: the bytes the base sink writes (wr) *)
+  c_plus24 : bool;     (* true = behaviour before the C15-daily-dst fix: daily, HH:MM set with tm_isdst of
+                          "now" and, when it has passed, + 24 h; false: tm_isdst = -1 and, in local time,
+                          tomorrow's HH:MM through mktime (tm_mday + 1) *)
+  c_gmt : bool;        (* Timezone::GmtTime (timegm) / LocalTime (mktime) *)
   c_scheme : scheme;
   c_freq : freq;
   c_interval : N;      (* minutes / hours; >= 1 when hourly / minutely (the config setter rejects 0) *)
@@ -56,18 +65,30 @@ Definition sort_idx (l : list finfo) : list finfo := fold_right ins_idx [] l.
 Section Rot.
 Variable strf : N -> N -> comp.   (* strf 0 t = strftime("%Y%m%d"), strf 1 t = strftime("%Y%m%d_%H%M%S")
                                      of instant t (seconds) in the sink's zone *)
-Variable rtm : N -> N.            (* mktime/timegm of {localtime|gmtime}(t) after the field update of
-                                     _calculate_initial_rotation_tp for the configured frequency *)
+Variable rtm : N -> N -> N.       (* mktime/timegm of {localtime|gmtime}(t) after the field update of
+                                     _calculate_initial_rotation_tp for the configured frequency:
+                                     rtm 0 t = tm_isdst as localtime gave it (hourly, minutely; daily before the fix)
+                                     rtm 1 t = daily: HH:MM:00 of t's day with tm_isdst = -1
+                                     rtm 2 t = daily: then tm_mday + 1, HH:MM:00, tm_isdst = -1 (tomorrow's HH:MM) *)
 Variable c : cfg.
 
 Definition live_path : path := [c_stem c; c_ext c].
 Definition mk_live (t : N) : finfo := {| fbase := live_path; fidx := 0; fdt := []; g_open := t |}.
 
 (* ---------- time ---------- *)
+Definition is_daily : bool := match c_freq c with FDaily => true | _ => false end.
+Definition dst_fixed : bool := is_daily && negb (c_plus24 c).
+
 Definition init_tp (t_ns : N) : N :=
   let now := t_ns / NS in
-  let r := rtm now in
-  (if now <? r then r else r + 86400) * NS.
+  if dst_fixed then
+    let r := rtm 1 now in
+    if now <? r then r * NS
+    else if c_gmt c then (r + 86400) * NS
+    else let r2 := rtm 2 now in (if now <? r2 then r2 else r2 + 86400) * NS
+  else
+    let r := rtm 0 now in
+    (if now <? r then r else r + 86400) * NS.
 
 Definition period : N :=
   match c_freq c with
@@ -146,6 +167,7 @@ Definition time_rotation (ts : N) (s : rstate) : rstate * bool :=
 Definition size_due (cnt : N) (s : rstate) : bool :=
   negb (c_limit c =? 0) && (c_limit c <? fsz s + cnt).
 
+(* cnt = the byte count used for the size check and the accounting (see acct below) *)
 Definition write_log (id ts wr cnt : N) (s : rstate) : rstate :=
   let '(s1, tr) := time_rotation ts s in
   let s2 := if negb tr && size_due cnt s1 then rotate_files ts s1 else s1 in
@@ -230,9 +252,12 @@ Definition construct (wmode rmold : bool) (start : N) (d : dir) : rstate :=
      g_hist := flat_map (fun f => fs_content (fname f) d2) (rev dq0);
      g_del := [] |}.
 
+(* what RotatingSink hands to _size_rotation and adds to _file_size for a statement *)
+Definition acct (wr cnt : N) : N := if c_cntacct c then cnt else wr.
+
 Definition rot_step (s : rstate) (o : rop) : rstate :=
   match o with
-  | Write id ts wr cnt => write_log id ts wr cnt s
+  | Write id ts wr cnt => write_log id ts wr (acct wr cnt) s
   | Restart wm rm st => construct wm rm st (fs s)
   end.
 
@@ -248,11 +273,12 @@ End Rot.
 
 (* ------------------------------------------------------------------------------------------
    Encoded entry point for the extracted runner.
-   case:  rot <prefix> <json(ignored)> <zone(ignored)> <scheme> <freq> <interval> <hh(ign)> <mm(ign)> <gmt(ign)>
+   case:  rot <variant> <json(ignored)> <zone(ignored)> <scheme> <freq> <interval> <hh(ign)> <mm(ign)> <gmt>
               <limit> <maxb> <over>
+              (<variant>: bit 0 = c_prefix, bit 1 = c_cntacct, bit 2 = c_plus24; 0 = the repaired code)
               <nstem> bytes.. <next> bytes..
               <ndecoy> { <ncomp> {<len> bytes..}*  <nst> {<id> <wr>}* }*
-              <ntab> { <t_sec> <len> bytes.. <len> bytes.. <rt> }*
+              <ntab> { <t_sec> <len> bytes.. <len> bytes.. <rt0> <rt1> <rt2> }*
               ops:  0 id ts wr cnt | 1 wmode rmold start        (the first op must be a restart = construct)
    output per op: <nfiles> { <ncomp> {<len> bytes..}* <size> <nst> ids.. }*   (directory order)      *)
 Definition take_n (n : N) (l : list N) : list N * list N :=
@@ -295,7 +321,7 @@ Fixpoint get_decoys (k : nat) (l : list N) : dir * list N :=
     end
   end.
 
-Record tabrow := { tr_t : N; tr_date : comp; tr_dt : comp; tr_rt : N }.
+Record tabrow := { tr_t : N; tr_date : comp; tr_dt : comp; tr_rt : N; tr_rt1 : N; tr_rt2 : N }.
 
 Fixpoint get_tab (k : nat) (l : list N) : list tabrow * list N :=
   match k with
@@ -306,8 +332,10 @@ Fixpoint get_tab (k : nat) (l : list N) : list tabrow * list N :=
       let '(a, r1) := get_comp r in
       let '(b, r2) := get_comp r1 in
       match r2 with
-      | x :: r3 => let '(rows, r4) := get_tab k' r3 in ({| tr_t := t; tr_date := a; tr_dt := b; tr_rt := x |} :: rows, r4)
-      | [] => ([], [])
+      | x :: x1 :: x2 :: r3 =>
+        let '(rows, r4) := get_tab k' r3 in
+        ({| tr_t := t; tr_date := a; tr_dt := b; tr_rt := x; tr_rt1 := x1; tr_rt2 := x2 |} :: rows, r4)
+      | _ => ([], [])
       end
     | [] => ([], [])
     end
@@ -324,8 +352,11 @@ Definition tab_strf (tab : list tabrow) (k t : N) : comp :=
   | Some r => if k =? 0 then tr_date r else tr_dt r
   | None => []
   end.
-Definition tab_rtm (tab : list tabrow) (t : N) : N :=
-  match tab_find tab t with Some r => tr_rt r | None => 0 end.
+Definition tab_rtm (tab : list tabrow) (k t : N) : N :=
+  match tab_find tab t with
+  | Some r => if k =? 0 then tr_rt r else if k =? 1 then tr_rt1 r else tr_rt2 r
+  | None => 0
+  end.
 
 Fixpoint get_ops (fuel : nat) (l : list N) : list rop :=
   match fuel with
@@ -347,7 +378,7 @@ Definition enc_dir (d : dir) : list N :=
 
 Definition rot_run_enc (l : list N) : list N :=
   match l with
-  | pf :: _json :: _zone :: sch :: fr :: iv :: _hh :: _mm :: _gmt :: lim :: mb :: ov :: r0 =>
+  | pf :: _json :: _zone :: sch :: fr :: iv :: _hh :: _mm :: gmt :: lim :: mb :: ov :: r0 =>
     let '(stem, r1) := get_comp r0 in
     let '(ext, r2) := get_comp r1 in
     match r2 with
@@ -356,7 +387,8 @@ Definition rot_run_enc (l : list N) : list N :=
       match r4 with
       | nt :: r5 =>
         let '(tab, r6) := get_tab (N.to_nat nt) r5 in
-        let cf := {| c_prefix := negb (pf =? 0);
+        let cf := {| c_prefix := N.testbit pf 0; c_cntacct := N.testbit pf 1; c_plus24 := N.testbit pf 2;
+                     c_gmt := negb (gmt =? 0);
                      c_scheme := if sch =? 0 then SIndex else if sch =? 1 then SDate else SDateTime;
                      c_freq := if fr =? 0 then FDisabled else if fr =? 1 then FDaily
                                else if fr =? 2 then FHourly else FMinutely;
